@@ -1,14 +1,41 @@
-"""C05  Query optimization never changes a query's result."""
+"""C05  Query optimization never changes a query's result.
+
+Every `opt` command is followed by `optsafe` on the same tree: the driver evaluates the two decidable
+hypotheses of the whole-tree theorem `c05_optimize_sound_partial` (`wellTyped`, `OptSafe` = `hazards` is
+empty) on this tree and catalog.  It is a model-side observable (the implementation column echoes it), used
+to (a) report in `features` what share of the generated trees lies inside the theorem's hypotheses and which
+hazards the rest meets, (b) cross-check the theorem against the run: inside the hypotheses the driver's
+optimised and unoptimised answers must be equal (otherwise infrastructure error – the compiled definitions
+would contradict the proved theorem), and a command classified as known finding D2/D3/D5 must lie OUTSIDE
+`OptSafe` and meet the hazard of that name; if not, `classify` returns `OPTSAFE-CONTRADICTION`, which is not
+a listed finding and is therefore reported as VIOLATION.
+
+Mutation sanity check (scratch copies of hypatia/query/__init__.py, quick tier, seed 0; all reported VIOLATION):
+  M1 And loop: `del lowers[query.index]` removed (D4 re-introduced)        -> failing inputs (wrong id sets)
+  M2 Or loop:  `del lowers[query.index]` removed (D4 in Or)                -> failing inputs
+  M3 Or pairing builds NotInRange without flipping the strictness of the bounds -> failing input
+     (`And(Or(Ge 3, Le 3), ...)` on a one-document index) after two shape drifts
+  M4 `_optimize_eq` drops the `query.index != index` test (folds across indexes) -> failing inputs
+  M5 `Not._optimize` forgets `negate()`                                   -> failing inputs
+  M6 `_Range.fromGTLT` treats `Le` as exclusive end                       -> failing inputs
+  M7 And loop: `del uppers[query.index]` removed, M8 Or loop refuses to pair when `a > b`: both are
+     semantics-preserving (a stale `uppers` entry is re-paired onto a fresh position and loses nothing) –
+     correctly reported as shape drift only (`no-failing-input-found`), no failing input exists.
+A sabotaged hazard report (D5 hidden from `optsafe`) is caught as OPTSAFE-CONTRADICTION.
+"""
 from lib import qtree
-from lib.core import exc_name
+from lib.core import exc_name, Infra, split_ms
 
 ID = "C05"
 AUDIT_IMPORTS = ["HypatiaProofs.Properties.C05"]
 THEOREMS = ["Hyp.Query." + t for t in (
     "c05_budget_irrelevant", "c05_leaf_unchanged", "c05_not_step", "c05_not_step_sound", "c05_fold_recognises",
     "c05_or_eq_any_step", "c05_and_eq_all_step_partial", "c05_and_pairing_step", "c05_or_pairing_step_partial",
-    "c05_d4_repaired", "c05_d3_witness", "c05_d5_witness", "c05_d2_witness")]
-CASES = {"quick": 2000, "thorough": 200000}
+    "c05_d4_repaired", "c05_d3_witness", "c05_d5_witness", "c05_d2_witness",
+    "c05_optimize_sound_partial", "c05_optimize_succeeds_partial", "c05_optimize_well_typed_partial",
+    "c05_pairing_loop", "c05_pairing_loop_instances", "c05_d3_witness_and", "c05_d2_witness_not",
+    "c05_illtyped_order_witness", "c05_end_to_end_partial", "c05_d3_exact", "c05_d5_exact", "c05_d2_exact")]
+CASES = {"quick": 8000, "thorough": 200000}
 BUDGET_S = {"quick": 40, "thorough": 700}
 RULE = ("catalogs of 1-4 real indexes with 0-25 documents, with and without no-value documents; trees biased to "
         "several comparators on the same index (>= 3 range bounds, contradictory bounds, lo > hi), all 14 "
@@ -16,10 +43,13 @@ RULE = ("catalogs of 1-4 real indexes with 0-25 documents, with and without no-v
         "shape is compared with the model's optimiser output, and the original query object is snapshotted "
         "(structure and object identities) before/after optimisation. non-trivial = the optimiser changed the "
         "tree and the unoptimised answer is a non-empty set")
-LEVEL_TEXT = ("Lean 4 theorems about the model of _optimize (Eq/NotEq folding, the repaired lowers/uppers pairing "
-              "loop, single-child collapse, Not pushed through negate): optimisation preserves the result set "
-              "under the stated hypotheses (outside the three recorded findings); the optimiser model is tied to "
-              "hypatia/query by comparing optimised tree shapes and results on real catalogs")
+LEVEL_TEXT = ("Lean 4 whole-tree theorem about the model of _optimize (Eq/NotEq folding, the repaired lowers/uppers "
+              "pairing loop with its loop invariant, single-child collapse, re-construction through the "
+              "flattening constructor, Not pushed through negate): for every catalog and every well-typed tree of "
+              "any arity and depth, optimisation preserves success and the result set under the decidable "
+              "hypothesis OptSafe, which excludes exactly the three recorded findings D2/D3/D5 (each with a "
+              "proved counterexample); the optimiser model is tied to hypatia/query by comparing optimised tree "
+              "shapes and results on real catalogs, and OptSafe is evaluated on every generated tree")
 LEVEL_NOTE = ("leaves answered at specification level; known findings D2, D3, D5 are mirrored by the model and "
               "reported as KNOWN-FINDING; trusted: Lean kernel, sampled correspondence, harness")
 TECHNIQUE = "Lean 4 proof over the optimiser model (loop invariant, induction on the tree) + differential correspondence"
@@ -35,6 +65,7 @@ def gen(rng, tier, idx):
         t = qtree.gen_tree(rng, kinds, rng.randrange(1, 5), range_bias=rng.choice([0.0, 0.5, 0.9]))
         toks = qtree.flat_tokens(t)
         cmds.append(["opt"] + toks)
+        cmds.append(["optsafe"] + toks)
         cmds.append(["optshape"] + toks)
         if rng.random() < 0.3:
             cmds.append(["apply"] + toks)
@@ -59,6 +90,8 @@ def impl_run(hyp, case):
                 before = im.snapshot(q)
                 r = qtree.run_ids(lambda: q.execute(optimize=True))
                 out.append(r if im.snapshot(q) == before else "query-object-mutated")
+            elif op == "optsafe":
+                out.append(None)        # model-side observable, filled in by post_model
             elif op == "optshape":
                 before = im.snapshot(q)
                 from hypatia.query import optimize
@@ -70,6 +103,31 @@ def impl_run(hyp, case):
         except Exception as e:
             out.append(exc_name(e))
     return out
+
+
+_SAFE = {}      # (command tokens) -> driver's optsafe answer, for the case being evaluated
+
+
+def post_model(hyp, case, mouts, iouts):
+    """echo the driver's `optsafe` answers into the implementation column (features/classify read them)
+    and check the run against the theorem: wellTyped & OptSafe => optimised answer == unoptimised answer"""
+    _SAFE.clear()
+    for i, c in enumerate(case["cmds"]):
+        if c[0] == "optsafe":
+            m, _ = split_ms(mouts[i])
+            iouts[i] = m
+            _SAFE[tuple(map(str, c[1:]))] = m
+    for i, c in enumerate(case["cmds"]):
+        if c[0] == "opt" and _SAFE.get(tuple(map(str, c[1:]))) == "safe":
+            m, s = split_ms(mouts[i])
+            if m != s:
+                raise Infra("driver contradicts c05_optimize_sound_partial: %r inside wellTyped/OptSafe gives "
+                            "optimised %r, unoptimised %r" % (c, m, s))
+    return mouts
+
+
+def safety(c):
+    return _SAFE.get(tuple(map(str, c[1:])))
 
 
 def model_cmd(c):
@@ -119,13 +177,31 @@ def classify(case, i, impl, model, spec):
     c = case["cmds"][i]
     if c[0] != "opt" or impl != model:
         return None
+    cands = syntactic_candidates(case, c, impl, model, spec)
+    if not cands:
+        return None
+    sf = safety(c)
+    if sf is None:                      # case without an `optsafe` command for this tree
+        return cands[0]
+    hz = sf[7:].split(",") if sf.startswith("unsafe:") else []
+    for fid in cands:
+        if fid in hz:
+            return fid
+    # a case that looks like a known finding but lies inside the theorem's hypotheses, or outside them
+    # only for a hazard of another name: theorem and classification contradict each other
+    return "OPTSAFE-CONTRADICTION"
+
+
+def syntactic_candidates(case, c, impl, model, spec):
+    """the recorded findings whose own description matches this command (tree + catalog + answers)"""
+    out = []
     kinds = case["kinds"]
     info = tree_info(qtree.parse_tokens(list(c[1:])), kinds)
     cm = info["cmps"]
     if impl == "err AttributeError" and not spec.startswith("err"):
         # folding Eq/NotEq operands into Any/All/NotAny/NotAll on an index class that lacks them
         if any(x in ("eq", "noteq") and k in ("field", "text") for x, k, _ in cm) and info["bool"]:
-            return "D3"
+            out.append("D3")
     if impl.startswith("{") and spec.startswith("{"):
         has_none = {}
         for d in case["cmds"]:
@@ -134,10 +210,10 @@ def classify(case, i, impl, model, spec):
         lows = {ix for x, k, ix in cm if x in ("lt", "le")}
         ups = {ix for x, k, ix in cm if x in ("gt", "ge")}
         if any(has_none.get(ix) for ix in lows & ups):
-            return "D5"
+            out.append("D5")
         if any(x in ("noteq", "notall", "all") and k in ("keyword", "facet") for x, k, _ in cm):
-            return "D2"
-    return None
+            out.append("D2")
+    return out
 
 
 def nontrivial(case, outs):
@@ -164,6 +240,9 @@ def features(case, outs):
                     f.append("folded:" + t)
         elif c[0] == "opt":
             f.append("opt-answer:" + ("empty" if o == "{}" else "nonempty" if o.startswith("{") else o))
+        elif c[0] == "optsafe" and o is not None:
+            # share of trees inside the hypotheses of c05_optimize_sound_partial
+            f.append("theorem-hypotheses:" + ("inside" if o == "safe" else "outside(" + o + ")"))
     return f
 
 
@@ -172,7 +251,8 @@ def witnesses():
     kinds = ["field", "keyword"]
     docs = [["doc", 0, 1, 1], ["doc", 0, 2, 5], ["doc", 0, 3, 7], ["doc", 0, 6, "none"],
             ["doc", 1, 1, 1, 2], ["doc", 1, 2, 2], ["doc", 1, 3, 3]]
-    mk = lambda *cmd: {"session": "query", "cfg": cfg, "kinds": kinds, "cmds": docs + [list(cmd)]}  # noqa: E731
+    mk = lambda *cmd: {"session": "query", "cfg": cfg, "kinds": kinds,  # noqa: E731
+                       "cmds": docs + [list(cmd), ["optsafe"] + list(cmd[1:])]}
     return [
         ("D3", mk("opt", "or", 2, "cmp", "noteq", 0, "one", 5, "cmp", "noteq", 0, "one", 7)),
         ("D5", mk("opt", "or", 2, "cmp", "lt", 0, "one", 2, "cmp", "gt", 0, "one", 6)),
